@@ -541,6 +541,13 @@ def classImplementsOnly(cls, *interfaces):
     spec._only_for = cls
     spec.__bases__ = ()
     _classImplements_ordered(spec, interfaces, ())
+    # Shared instance declarations for *cls* and its subclasses left out the
+    # interfaces the class implemented when they were created. That may just
+    # have changed, so don't hand them out to any more objects.
+    if isinstance(cls, type):
+        for key in list(InstanceDeclarations.keys()):
+            if key and isinstance(key[0], type) and issubclass(key[0], cls):
+                InstanceDeclarations.pop(key, None)
 
 
 def classImplements(cls, *interfaces):
